@@ -16,7 +16,7 @@ mod rules;
 pub use explain::Explain;
 pub use optimizer::{Config, Optimizer};
 #[cfg(feature = "verif")]
-pub use optimizer::verif_rule_inventory;
+pub use optimizer::{verif_rule_inventory, verif_set_disabled_rules};
 pub use rules::{ExprAnalysis, Statistics, TypeError, TypeSchemaAnalysis};
 
 // Alias types for our language.
